@@ -1312,7 +1312,9 @@ def _emitter_samples(ctx):
         return c
     # a constructor all of whose parameters are defaulted (its arity-0 overload still passes both defaults), and one with a defaulted tail
     cls["ctors"] = [ctor([("a", "int", (), "1"), ("b", "double", (), "2.5")]),
-                    ctor([D, ("y", "double", (), None), ("lbl", "string", (), '"k"')]), ctor([EO, ("z", "double", (), None), ("w", "double", (), None)])]
+                    ctor([D, ("y", "double", (), None), ("lbl", "string", (), '"k"')]), ctor([EO, ("z", "double", (), None), ("w", "double", (), None)]),
+                    # (a brace-initialiser default, nested: the text goes into the routine as it is - braces are not format fields)
+                    ctor([D, ("y", "double", (), None), ("z", "double", (), None), ("grid", "Matrix", ("gtsam",), "{{1, 2}, {}}")])]
     me = sample_wrapper(ctx, module_name="mod", wrapper_id=3, wrapper_map={}, use_boost_serialization=False, __kind__="MatlabWrapper")
     return me, cls, statics, meths, funcs
 
@@ -1522,14 +1524,20 @@ def rule_routines_by_evaluation(ctx, rep: Report, rid="I11", conversions=True):
             ps = func_params(fn)
             if len(ps) != len(argv):
                 raise _PathEval.Unknown(f"signature of {which}")
-            mini_exec(fn, dict(zip(ps, argv)), budget=120000, methods=methods, classes=classes)
+            mini_exec(fn, _with_templates(ctx, dict(zip(ps, argv))), budget=120000, methods=methods, classes=classes)
         wm = me.get("wrapper_map")
         if not isinstance(wm, dict) or len(wm) < 8 or len(func_params(gc)) != 2:
             raise _PathEval.Unknown("id map of the sample run")
         routines = {}
         for fid in sorted(wm):
-            routines[fid] = mini_exec(gc, {func_params(gc)[0]: me, func_params(gc)[1]: fid}, budget=200000, methods=methods, classes=classes)
-    except (_PathEval.Unknown, _Raised, TypeError, KeyError, IndexError, AttributeError) as ex:
+            routines[fid] = mini_exec(gc, _with_templates(ctx, {func_params(gc)[0]: me, func_params(gc)[1]: fid}), budget=200000, methods=methods, classes=classes)
+    except _Raised as ex:
+        # the generator itself raises on the sample declarations (all of them legal): no wrapper would be produced for such a module
+        rep.add(rid, "routines:the generator produces a routine for every registered id of the sample declarations", False,
+                f"running the emitters / generate_collector_function on the samples raises {str(ex)[:90]}: an interface with such a declaration "
+                f"(a brace-initialiser default, an enum parameter, a pair return ...) cannot be wrapped at all", loc)
+        return
+    except (_PathEval.Unknown, TypeError, KeyError, IndexError, AttributeError) as ex:
         rep.add(rid, "routines evaluated on sample declarations", True, f"not evaluable ({ex}); M3/M4/M7 decide by structure", loc, nontrivial=False)
         return
     rep.units["routines_evaluated"] = len(routines)
@@ -1751,6 +1759,15 @@ def rule_class_file_named_after_the_class(ctx, rep: Report, rid="I13"):
 
 
 # ------------------------------------------------------------------------------------------ T20 / T21 the preamble and the class registry by evaluation
+def _with_templates(ctx, env: dict) -> dict:
+    """env plus the text templates of WrapperTemplate (class-level constants the emitters read by name)."""
+    ci, prog = mw(ctx)
+    wt = ctx._get("wrapper_template_constants", lambda: _class_constants(prog, "WrapperTemplate"))
+    out = dict(env)
+    out.setdefault("WrapperTemplate", wt)
+    return out
+
+
 def _class_constants(prog, cname: str):
     """The class-level constants of a program class (the text templates of WrapperTemplate) as a sample object: each attribute's
     defining expression evaluated by the interpreter."""
@@ -1984,3 +2001,57 @@ def rule_returned_enum_by_evaluation(ctx, rep: Report, rid="M20"):
         rep.add(rid, "returned enums:wrapped as the MATLAB class of the declared enum", not probs,
                 f"{probs[:3]}: MATLAB receives an object of another enumeration class (or of none that exists) than the one the interface declares",
                 loc)
+
+
+# ------------------------------------------------------------------------------------------ the base-class handle by evaluation (H4)
+def base_handle_verdict(ctx):
+    """The routines behind a class's constructors run (the analyser's own interpreter) for sample classes with and without a base:
+    with a base the collectorInsertAndMakeBase routine hands `new SharedBase(*self)` to MATLAB in out[0] and every constructor
+    routine in out[1], `SharedBase` being the shared pointer to the *base*; without a base neither allocates one.  Returns the
+    list of differences, or None where the emitters cannot be followed."""
+    def mk():
+        from .rules_matlab import SampleObj, _PathEval, _Raised, mini_exec, program_classes
+        ci, prog = mw(ctx)
+        methods = _all_methods(prog, ci)
+        classes = program_classes(prog, ["ArgumentList", "Argument", "MatlabWrapper", "Typename", "Type", "ReturnType"])
+        wcc = prog.method("MatlabWrapper", "wrap_class_constructors")
+        gc = prog.method("MatlabWrapper", "generate_collector_function")
+        ps = func_params(wcc)
+        if len(ps) != 6 or len(func_params(gc)) != 2:
+            return None
+        probs, ran = [], 0
+        for virt in (False, True):
+            for par in (False, True):
+                me, cls, *_ = _emitter_samples(ctx)
+                base = SampleObj(__kind__="Typename", name="Base", namespaces=["ns"], instantiations=[])
+                cls["is_virtual"] = virt
+                cls["parent_class"] = base if par else ""
+                try:
+                    text = mini_exec(wcc, _with_templates(ctx, dict(zip(ps, [me, "ns", cls, base if par else "", list(cls["ctors"]), virt]))), budget=200000, methods=methods, classes=classes)
+                    wm = me.get("wrapper_map")
+                    if not isinstance(text, str) or not isinstance(wm, dict):
+                        return None
+                    label = f"{'virtual' if virt else 'plain'} class {'with' if par else 'without'} a base"
+                    for fid in sorted(wm):
+                        role = next((x for x in wm[fid] if isinstance(x, str) and x in ("collectorInsertAndMakeBase", "constructor")), None)
+                        if role is None:
+                            continue
+                        r = mini_exec(gc, _with_templates(ctx, {func_params(gc)[0]: me, func_params(gc)[1]: fid}), budget=200000, methods=methods, classes=classes)
+                        if not isinstance(r, str):
+                            return None
+                        ran += 1
+                        flat = re.sub(r"\s+", "", r)
+                        k = "0" if role == "collectorInsertAndMakeBase" else "1"
+                        news = flat.count("newSharedBase(")
+                        if par:
+                            ok = (news == 1 and "typedefstd::shared_ptr<ns::Base>SharedBase;" in flat
+                                  and f"out[{k}]=mxCreateNumericMatrix(1,1,mxUINT32OR64_CLASS,mxREAL);" in flat
+                                  and f"*reinterpret_cast<SharedBase**>(mxGetData(out[{k}]))=newSharedBase(*self);" in flat)
+                            if not ok:
+                                probs.append(f"{label}: the {role} routine (id {fid}) does not hand `new SharedBase(*self)` - a shared pointer to ns::Base - to MATLAB in out[{k}]")
+                        elif news or "SharedBase" in flat:
+                            probs.append(f"{label}: the {role} routine (id {fid}) allocates a base handle nobody receives")
+                except (_PathEval.Unknown, _Raised, TypeError, KeyError, IndexError, AttributeError):
+                    return None
+        return probs if ran >= 8 else None
+    return ctx._get("base_handle_verdict", mk)
